@@ -27,10 +27,10 @@ var c20fields = []c20field{
 	{"time", "", 0, true}, {"time AS t", "t", 0, true},
 	{"top(x, 2)", "", 0, false}, {"top(x, y, 2)", "", 1, false}, {"top(x, y, x_1, 2)", "", 2, false}, {"bottom(x, y, 2)", "", 1, false},
 	{"top(x, y, 2) AS x", "x", 1, false}, {"mean(x) AS mean_1", "mean_1", 0, false}, {"x AS x_2", "x_2", 0, false},
-	{"(top(x, y, 2))", "", 0, false}, {"(x + y) * x_1", "", 0, false},
+	{"(top(x, y, 2))", "", 0, false}, {"(x + y) * x_1", "", 0, false}, {"x_2", "", 0, false},
 }
 
-var c20core = []int{0, 1, 2, 3, 4, 5, 6, 7, 15, 16, 18, 22}
+var c20core = []int{0, 1, 2, 3, 4, 5, 6, 7, 15, 16, 18, 22, 23, 26}
 
 type c20Case struct {
 	Fields []int `json:"fields"`
